@@ -18,6 +18,7 @@ type Profile struct {
 	Poison            bool
 	SlowFlushPercent  int
 	SlowRemovePercent int
+	TrSpillPercent    int // share of the cases that get a spliced-in fragment: a transaction that spills into tables of its own, is read through and discarded, directly followed by another table builder
 	StrictVariants    bool // draw Options.Strict from {default, NoStrict, StrictAll}: must be invisible without faults
 	DetPercent        int  // percentage of cases with deterministic layout (wait for idle after every write)
 	MaxVal            int
@@ -181,6 +182,43 @@ func Draw(t *rapid.T, p *Profile) *Case {
 	span := p.MaxOps - p.MinOps
 	minOps := p.MinOps + rapid.SampledFrom([]int{0, 0, span / 8, span / 4, span / 2}).Draw(t, "sizeclass")
 	c.Ops = rapid.SliceOfN(opGen, minOps, p.MaxOps).Draw(t, "ops")
+	if p.TrSpillPercent > 0 && rapid.SampledFrom([]int{5, 15, 25, 35, 45, 55, 65, 75, 85, 95}).Draw(t, "trspill") < p.TrSpillPercent {
+		// A transaction that outgrows its buffer (tables of its own), is read through (their blocks get cached)
+		// and is discarded; the very next table - an oversized batch, i.e. another transaction's flush, not
+		// preceded by a journal - is the one that can be given the removed table's file number. Random mixing
+		// rarely puts these next to each other: a buffer rotation in between takes the number for a journal.
+		wb := c.Opts.WriteBuffer
+		if wb > 4096 {
+			wb = 4096
+		}
+		var fr []Op
+		fr = append(fr, Op{T: "tropen"})
+		var ks []int
+		for j := rapid.IntRange(2, 5).Draw(t, "spn"); j > 0; j-- {
+			k := rapid.IntRange(0, nk-1).Draw(t, "spk")
+			ks = append(ks, k)
+			fr = append(fr, Op{T: "put", K: k, V: gen.VSpec{Len: wb/2 + 70, Fill: j % 2}})
+		}
+		for _, k := range ks {
+			fr = append(fr, Op{T: "trget", K: k})
+		}
+		fr = append(fr, Op{T: rapid.SampledFrom([]string{"trdiscard", "trdiscard", "trcommit"}).Draw(t, "spend")})
+		big := Op{T: "batch"}
+		for j := 0; j < 3; j++ {
+			k := ks[j%len(ks)]
+			if j == 2 {
+				k = rapid.IntRange(0, nk-1).Draw(t, "spk")
+			}
+			big.B = append(big.B, BOp{K: k, V: gen.VSpec{Len: wb/2 + 40 + j, Fill: (j + 1) % 2}})
+			ks = append(ks, k)
+		}
+		fr = append(fr, big)
+		for _, k := range ks {
+			fr = append(fr, Op{T: "get", K: k})
+		}
+		at := rapid.IntRange(0, len(c.Ops)).Draw(t, "spat")
+		c.Ops = append(append(append([]Op{}, c.Ops[:at]...), fr...), c.Ops[at:]...)
+	}
 	return c
 }
 
